@@ -1,9 +1,9 @@
 package checks
 
 import (
-	"strings"
-	"sort"
 	"fmt"
+	"sort"
+	"strings"
 
 	"github.com/akalin/gopar/par2"
 	"math/rand"
@@ -56,6 +56,9 @@ func (c *c05) Cases(tier string, seed int64) []core.Case {
 	}
 	for i := 0; i < map[string]int{"quick": 6, "thorough": 60}[tier]; i++ {
 		cs = append(cs, core.MkCase(fmt.Sprintf("obstacle-%d", i), c05Params{r.Int63(), "obstacle"}))
+		if i < 2 || tier == "thorough" {
+			cs = append(cs, core.MkCase(fmt.Sprintf("illegal-slice-size-%d", i), c05Params{r.Int63(), "illegal-slice-size"}))
+		}
 		cs = append(cs, core.MkCase(fmt.Sprintf("unreadable-input-%d", i), c05Params{r.Int63(), "unreadable-input"}))
 		if i < 3 || tier == "thorough" && i < 20 {
 			cs = append(cs, core.MkCase(fmt.Sprintf("big-slice-%d", i), c05Params{r.Int63(), "big-slice"}))
@@ -76,6 +79,10 @@ func (c *c05) Run(cs core.Case) core.Result {
 	core.Decode(cs, &p)
 	r := core.NewR(cs)
 	rng := rand.New(rand.NewSource(p.Seed))
+	if p.Kind == "illegal-slice-size" {
+		c.runIllegalSliceSize(r, rng)
+		return r.Done()
+	}
 	var set scen.Set
 	g := []int{1, 2, 3, 7, 16, 64}[rng.Intn(6)]
 	checkBlocks := true
@@ -415,4 +422,57 @@ func indexFold(s, sub string) int {
 		}
 	}
 	return -1
+}
+
+// runIllegalSliceSize: slice sizes the format does not allow (not a positive
+// multiple of 4). Create may refuse; whatever file it writes nevertheless is
+// judged like any other: a packet stream whose main packet declares a legal
+// slice size.
+func (c *c05) runIllegalSliceSize(r *core.R, rng *rand.Rand) {
+	root, err := os.MkdirTemp("", "c05ill-")
+	if err != nil {
+		r.Inconclusive("tempdir: %v", err)
+		return
+	}
+	defer os.RemoveAll(root)
+	for _, size := range []int{1, 2, 3, 5, 6, 10, 14, 1002, 2001, 4098, -4, -6, 0x7ffffffe} {
+		dir := filepath.Join(root, fmt.Sprintf("s%d", size))
+		os.MkdirAll(dir, 0755)
+		var paths []string
+		for i := 0; i < 2+rng.Intn(2); i++ {
+			pth := filepath.Join(dir, fmt.Sprintf("in%d.dat", i))
+			os.WriteFile(pth, scen.GenData(rng, "random", 20+rng.Intn(3000), 4), 0644)
+			paths = append(paths, pth)
+		}
+		before := scen.Snapshot(dir)
+		var cerr error
+		if pi := core.Protect(func() {
+			cerr = par2.Create(filepath.Join(dir, "ill.par2"), paths, par2.CreateOptions{SliceByteCount: size, NumParityShards: 1 + rng.Intn(4), NumGoroutines: 1 + rng.Intn(3)})
+		}); pi != nil {
+			r.Violate("create-panic|"+pi.Frame, "Create with slice size %d: %s", size, pi.Msg)
+			continue
+		}
+		r.Count("illegal_slice_size_creates", 1)
+		r.SetAdd("illegal_slice_size_outcomes", fmt.Sprintf("refused=%v", cerr != nil))
+		for name := range scen.Snapshot(dir) {
+			if _, was := before[name]; was {
+				continue
+			}
+			b, _ := os.ReadFile(filepath.Join(dir, name))
+			pk, perr := par2rw.ParseStrict(b)
+			if perr != nil {
+				r.Violate("nonconformant|packet stream", "Create with slice size %d (err=%v) wrote %s, which is not a packet stream: %v", size, cerr, name, perr)
+				continue
+			}
+			for _, q := range pk {
+				if q.Type == par2rw.TypeMain {
+					if m, derr := par2rw.DecodeMain(q.Body); derr != nil || m.SliceSize == 0 || m.SliceSize%4 != 0 {
+						r.Violate("nonconformant|main packet slice size", "Create with slice size %d (err=%v) wrote %s whose main packet declares slice size %d (decode error %v)", size, cerr, name, m.SliceSize, derr)
+					}
+				}
+			}
+		}
+		r.Key("illegal-slice-size|%d", size)
+	}
+	r.Sample(map[string]interface{}{"kind": "illegal-slice-size", "sizes": "1,2,3,5,6,10,14,1002,2001,4098,-4,-6,2^31-2"})
 }
